@@ -257,6 +257,12 @@ RECIPES = [
     ("C19", "neutral", [], "pyyeti/psd.py", "    ms = cau - cal\n    psdoct = ms * (1 / (FU - FL).reshape(-1, 1))", "    band_ms = -cal + cau\n    widths = (FU - FL).reshape(-1, 1)\n    ms = band_ms\n    psdoct = (1 / widths) * ms", "temporaries, commuted"),
     ("C05", "break", ["C05-R9"], "pyyeti/cyclecount.py", "    rf = rain.rainflow(peaks, getoffsets)\n", "    rf = rain.rainflow(np.asarray(peaks)[findap(np.asarray(peaks))], getoffsets)\n", "wrapper filters the reversals"),
     ("C05", "break", ["C05-R9"], "pyyeti/cyclecount.py", "        rf, os = rain.rainflow(peaks, getoffsets)\n", "        rf, os = rain.rainflow(peaks, False)\n", "offsets not requested"),
+    ("C06", "break", ["C06-R5"], "pyyeti/cb.py", "    mg = rbg.T @ mbb @ rbg", "    mg = rbg.T @ mbb @ rbe[bset]", "geometry mass built with another mode set"),
+    ("C06", "break", ["C06-R5"], "pyyeti/cb.py", '    _wrtground(f, uset, rbfe, rbe.T @ rbfe, "eigensolution")', '    _wrtground(f, uset, rbfe, rbs.T @ rbfe, "eigensolution")', "eigensolution grounding energy with the stiffness modes"),
+    ("C06", "break", ["C06-R5"], "pyyeti/cb.py", "    _wrtdist(f, ds, dg, de, ttl)", "    _wrtdist(f, ds, de, dg, ttl)", "cg distances listed in another order than the header"),
+    ("C06", "break", ["C06-R5"], "pyyeti/cb.py", "        effmass_percent = effmass * (100 / np.diag(mg))", "        effmass_percent = effmass * (100 / np.diag(ms))", "percentage of another set's total mass"),
+    ("C06", "break", ["C06-R5"], "pyyeti/cb.py", "    rbfg = kbb @ rbg", "    rbfg = k @ rbg", "boundary-size modes multiplied into the full stiffness"),
+    ("C06", "neutral", [], "pyyeti/cb.py", "    ms = rbs.T @ m @ rbs\n    mg = rbg.T @ mbb @ rbg\n    me = rbe.T @ m @ rbe", "    m_rbs = m @ rbs\n    ms = rbs.T @ m_rbs\n    me = rbe.T @ (m @ rbe)\n    mg = (rbg.T @ mbb) @ rbg", "temporaries, re-association, reordering"),
     # ---- C20
     ("C20", "break", ["C20-R5"], "pyyeti/stats.py", "            if _func(a, 1 - c, r - 1, 1 - p) >= 0:\n                # `r` samples (the fewest possible) already meet the confidence\n                return a\n", "", "revert F16"),
     ("C20", "break", ["C20-R1"], "pyyeti/stats.py", "    return nct.ppf(c, n - 1, pnonc) / sn", "    return nct.ppf(c, n, pnonc) / sn", "degrees of freedom"),
